@@ -79,7 +79,11 @@ inductive Val where
 inductive Expr where
   | lit (v : Val)
   | var (name : String)
-  deriving DecidableEq, Repr
+  /-- `e | name` -/
+  | filt1 (name : String) (e : Expr)
+  /-- `e | name: arg` -/
+  | filt2 (name : String) (e : Expr) (arg : Expr)
+  deriving Repr
 
 /-- decimal digits of a natural number, as code points -/
 def digits (n : Nat) : Text := (Nat.repr n).toList.map Char.toNat
@@ -135,8 +139,14 @@ inductive Node where
   | cycle (group : Text) (args : List Expr)
   /-- `{% if cond %}body{% else %}els{% endif %}` (truthiness test of one expression) -/
   | ifn (cond : Expr) (body : List Node) (els : List Node)
+  /-- `{% unless cond %}body{% else %}els{% endunless %}` -/
+  | unless (cond : Expr) (body : List Node) (els : List Node)
+  /-- `{% with k: e … %}body{% endwith %}` (extra tag) -/
+  | withn (args : List (String × Expr)) (body : List Node)
   /-- `{% for var in src %}body{% else %}dflt{% endfor %}` -/
   | forn (var : String) (src : Expr) (body : List Node) (dflt : List Node)
+  /-- `{% tablerow var in src %}body{% endtablerow %}` (no `cols`: one row) -/
+  | tablerow (var : String) (src : Expr) (body : List Node)
   /-- `{% include name [with|for e as key] [, k: e …] %}` -/
   | include (name : String) (bind : Option (Expr × String)) (args : List (String × Expr))
   /-- `{% render name [with|for e as key] [, k: e …] %}`; `isFor` distinguishes `for` from `with` -/
@@ -161,7 +171,10 @@ def nestNode : Node → Nat
   | .capture _ body => nestList body + 1
   | .ifchanged body => nestList body + 1
   | .ifn _ body els => max (nestList body) (nestList els) + 1
+  | .unless _ body els => max (nestList body) (nestList els) + 1
+  | .withn _ body => nestList body + 1
   | .forn _ _ body dflt => max (nestList body) (nestList dflt) + 1
+  | .tablerow _ _ body => nestList body + 1
   | _ => 0
 def nestList : List Node → Nat
   | [] => 0
@@ -178,7 +191,10 @@ def blankNode : Node → Bool
   | .ifchanged body => blankList body
   | .cycle _ _ => false
   | .ifn _ body els => blankList body && blankList els
+  | .unless _ body els => blankList body && blankList els
+  | .withn _ body => blankList body
   | .forn _ _ body dflt => blankList body && blankList dflt
+  | .tablerow _ _ _ => false
   | .include _ _ _ => false
   | .render _ _ _ => false
 /-- `BlockNode.blank = all(node.blank for node in nodes)` -/
@@ -203,6 +219,8 @@ structure Prog where
   templates : Tpls                    -- the loader's templates (parsed when first used)
   globals : List (String × Val)       -- render arguments
   sz : Val → Nat                      -- `sys.getsizeof`
+  filt : String → Val → Option Val → Val   -- the filters, as functions on values (argument optional)
+  lax : Bool                          -- `Mode.LAX` / `Mode.WARN`: `Environment.error` does not raise
 
 inductive Err where
   | outputLimit     -- OutputStreamLimitError
@@ -267,8 +285,12 @@ structure W where
   ifch : Text
   buf : Buf
   log : List Nat
+  /-- lengths left on `RenderContext.loops` by `RenderContext.loop` when its `extend` raised (`loops.append` comes
+  before `with self.extend(...)`, the `finally: loops.pop()` after it); only observable when errors are suppressed -/
+  leak : List Nat
 
-abbrev Res := Except Err W
+/-- an error carries the state of the context at the moment it is raised (what a suppressing render loop goes on with) -/
+abbrev Res := Except (Err × W) W
 
 /-! ## The checks -/
 
@@ -276,10 +298,10 @@ abbrev Res := Except Err W
 def reduceMul (init : Nat) (xs : List Nat) : Nat := xs.foldl (· * ·) init
 
 /-- `raise_for_loop_limit(len)` raises? -/
-def loopOver (lim : Option Nat) (c : Cx) (len : Nat) : Bool :=
+def loopOver (lim : Option Nat) (c : Cx) (w : W) (len : Nat) : Bool :=
   match lim with
   | none => false
-  | some N => N != 0 && decide (reduceMul (len * c.carry) c.loops > N)
+  | some N => N != 0 && decide (reduceMul (len * c.carry) (w.leak ++ c.loops) > N)
 
 /-- the test in `assign`: `limit and size > limit` -/
 def nsOver (lim : Option Nat) (size : Nat) : Bool :=
@@ -295,8 +317,9 @@ def sumSz (sz : Val → Nat) (xs : List (String × Val)) : Nat :=
 /-- `get_size_of_locals()` -/
 def sizeOfLocals (P : Prog) (c : Cx) (w : W) : Nat := sumSz P.sz w.locals + c.nsCarry
 
-/-- `buffer.write(s)` on the current buffer -/
-def write (bk : BK) (b : Buf) (s : Text) : Except Err Buf :=
+/-- `buffer.write(s)` on the current buffer. `LimitedStringIO.write` adds to `size` *before* it tests the limit, so a
+failed write leaves the count increased (and nothing written): the error carries that buffer. -/
+def write (bk : BK) (b : Buf) (s : Text) : Except Buf Buf :=
   match bk with
   | .null => .ok b
   | .real lim =>
@@ -304,11 +327,11 @@ def write (bk : BK) (b : Buf) (s : Text) : Except Err Buf :=
     let size := b.size + utf8Len s
     match lim with
     | none => .ok ⟨size, b.text ++ s⟩
-    | some l => if size > l then .error .outputLimit else .ok ⟨size, b.text ++ s⟩
+    | some l => if size > l then .error ⟨size, b.text⟩ else .ok ⟨size, b.text ++ s⟩
 
 def writeW (bk : BK) (w : W) (s : Text) : Res :=
   match write bk w.buf s with
-  | .error e => .error e
+  | .error b => .error (.outputLimit, { w with buf := b })
   | .ok b => .ok { w with buf := b }
 
 /-- `context.get_buffer(buffer)`: the class and limit of the new buffer -/
@@ -325,7 +348,7 @@ def subKind (L : Limits) (bk : BK) (b : Buf) : BK :=
 def assignW (L : Limits) (P : Prog) (c : Cx) (w : W) (name : String) (v : Val) : Res :=
   let w1 := { w with locals := setA w.locals name v }
   let size := sizeOfLocals P c w1
-  if nsOver L.ns size then .error .nsLimit else .ok { w1 with log := w1.log ++ [size] }
+  if nsOver L.ns size then .error (.nsLimit, w1) else .ok { w1 with log := w1.log ++ [size] }
 
 /-! ## Name resolution -/
 
@@ -347,12 +370,14 @@ def evalVar (c : Cx) (w : W) (name : String) : Val :=
       | some v => v
       | none => .sc (.undef name)
 
-def eval (c : Cx) (w : W) : Expr → Val
+def eval (P : Prog) (c : Cx) (w : W) : Expr → Val
   | .lit v => v
   | .var n => evalVar c w n
+  | .filt1 f e => P.filt f (eval P c w e) none
+  | .filt2 f e a => P.filt f (eval P c w e) (some (eval P c w a))
 
-def evalArgs (c : Cx) (w : W) (args : List (String × Expr)) : List (String × Val) :=
-  args.map fun a => (a.1, eval c w a.2)
+def evalArgs (P : Prog) (c : Cx) (w : W) (args : List (String × Expr)) : List (String × Val) :=
+  args.map fun a => (a.1, eval P c w a.2)
 
 /-- `context.cycle(key, length)`: returns the index and the updated table -/
 def cycleStep (cs : List (CycleKey × Nat)) (key : CycleKey) (len : Nat) : Nat × List (CycleKey × Nat) :=
@@ -377,16 +402,16 @@ def bindVar (inGlobals : Bool) (c : Cx) (key : String) (v : Val) : Cx :=
 
 /-- `context.copy(namespace, disabled_tags=["include"], carry_loop_iterations=True)` (depth test at the call site) -/
 def copied (P : Prog) (c : Cx) (w : W) (ns : List (String × Val)) : Cx :=
-  { pushed := [], globals := ns ++ c.globals, loops := [], carry := reduceMul c.carry c.loops,
+  { pushed := [], globals := ns ++ c.globals, loops := [], carry := reduceMul c.carry (w.leak ++ c.loops),
     copyDepth := c.copyDepth + 1, scope := 4, noInclude := true, nsCarry := sizeOfLocals P c w }
 
 /-- the fresh locals / tag namespace of a copied context; buffer and log are the caller's -/
-def freshW (w : W) : W := { locals := [], cycles := [], ifch := [], buf := w.buf, log := w.log }
+def freshW (w : W) : W := { locals := [], cycles := [], ifch := [], buf := w.buf, log := w.log, leak := [] }
 
 /-- a copied context is thrown away after use: the caller keeps its own locals and tag namespace -/
 def restoreW (w : W) (r : Res) : Res :=
   match r with
-  | .error e => .error e
+  | .error (e, w1) => .error (e, { w with buf := w1.buf, log := w1.log })
   | .ok w1 => .ok { w with buf := w1.buf, log := w1.log }
 
 /-- what `include`/`render` bind: an array to iterate, or one value -/
@@ -395,103 +420,153 @@ inductive Bound where
   | one (key : String) (v : Val)
   | many (key : String) (items : List Scalar)
 
-def boundInclude (c : Cx) (w : W) (bind : Option (Expr × String)) : Bound :=
+def boundInclude (P : Prog) (c : Cx) (w : W) (bind : Option (Expr × String)) : Bound :=
   match bind with
   | .none => .none
   | .some (e, key) =>
-    match asArray (eval c w e) with
+    match asArray (eval P c w e) with
     | some items => .many key items
-    | none => .one key (eval c w e)
+    | none => .one key (eval P c w e)
 
-def boundRender (c : Cx) (w : W) (bind : Option (Bool × Expr × String)) : Bound :=
+def boundRender (P : Prog) (c : Cx) (w : W) (bind : Option (Bool × Expr × String)) : Bound :=
   match bind with
   | .none => .none
   | .some (isFor, e, key) =>
-    match (if isFor then asArray (eval c w e) else none) with
+    match (if isFor then asArray (eval P c w e) else none) with
     | some items => .many key items
-    | none => .one key (eval c w e)
+    | none => .one key (eval P c w e)
 
 /-! ## Rendering (STRICT mode: the first error aborts) -/
 
-/-- a check of the form `if measure > limit: raise e` in front of a computation -/
-@[macro_inline] def guardE (b : Bool) (e : Err) (k : Res) : Res := if b then .error e else k
+/-- a check of the form `if measure > limit: raise e` in front of a computation; `w` is the state when it is made -/
+@[macro_inline] def guardE (b : Bool) (e : Err) (w : W) (k : Res) : Res := if b then .error (e, w) else k
 
-/-- sequencing in STRICT mode: an error propagates, otherwise continue from the state reached -/
+/-- sequencing: an error propagates (with its state), otherwise continue from the state reached -/
 def bindR (a : Res) (f : W → Res) : Res :=
   match a with
   | .error e => .error e
   | .ok w => f w
 
+/-- an error leaving a construct that had swapped part of the state (a sub-buffer): put the outer part back -/
+def mapErr (g : W → W) (r : Res) : Res :=
+  match r with
+  | .error (e, w) => .error (e, g w)
+  | .ok w => .ok w
+
+/-- `except LiquidError as err: self.env.error(err)` in `render_with_context`: in LAX/WARN mode the error is dropped
+and the loop goes on with the next node, from the state the failing node left behind -/
+def catchR (lax : Bool) (r : Res) : Res :=
+  match r with
+  | .error (e, w) => if lax then .ok w else .error (e, w)
+  | .ok w => .ok w
+
 /-- `CycleNode.render_to_output`, the part that does not touch the buffer: evaluate the arguments,
 `context.cycle(key, len(args))`; returns the updated state and the chosen argument (if the index is in range) -/
-def cyclePick (c : Cx) (w : W) (group : Text) (args : List Expr) : W × Option Val :=
-  let vals := args.map (eval c w)
+def cyclePick (P : Prog) (c : Cx) (w : W) (group : Text) (args : List Expr) : W × Option Val :=
+  let vals := args.map (eval P c w)
   let key := if group ≠ [] then CycleKey.named group else CycleKey.byArgs vals
   let st := cycleStep w.cycles key vals.length
   ({ w with cycles := st.2 }, vals[st.1]?)
 
-def cycleW (c : Cx) (bk : BK) (w : W) (group : Text) (args : List Expr) : Res :=
-  match (cyclePick c w group args).2 with
-  | none => .ok (cyclePick c w group args).1
-  | some v => writeW bk (cyclePick c w group args).1 (toStr v)
+def cycleW (P : Prog) (c : Cx) (bk : BK) (w : W) (group : Text) (args : List Expr) : Res :=
+  match (cyclePick P c w group args).2 with
+  | none => .ok (cyclePick P c w group args).1
+  | some v => writeW bk (cyclePick P c w group args).1 (toStr v)
+
+/-- `<td class="colN">` -/
+def tdOpen (col : Nat) : Text :=
+  [60, 116, 100, 32, 99, 108, 97, 115, 115, 61, 34, 99, 111, 108] ++ digits col ++ [34, 62]
+/-- `</td>` -/
+def tdClose : Text := [60, 47, 116, 100, 62]
+/-- `<tr class="row1">\n` -/
+def trOpen : Text := [60, 116, 114, 32, 99, 108, 97, 115, 115, 61, 34, 114, 111, 119, 49, 34, 62, 10]
+/-- `</tr>\n` -/
+def trClose : Text := [60, 47, 116, 114, 62, 10]
+
+/-- the cell tags of a tablerow item; nothing for a `for` item -/
+def cellOpen (bk : BK) (w : W) (col : Option Nat) : Res :=
+  match col with
+  | none => .ok w
+  | some k => writeW bk w (tdOpen k)
+def cellClose (bk : BK) (w : W) (col : Option Nat) : Res :=
+  match col with
+  | none => .ok w
+  | some _ => writeW bk w tdClose
 
 mutual
 /-- `Node.render(context, buffer)` -/
 def render (L : Limits) (P : Prog) (c : Cx) (bk : BK) (w : W) : Node → Res
   | .text s => writeW bk w s
-  | .output e => writeW bk w (toStr (eval c w e))
-  | .assign name e => assignW L P c w name (eval c w e)
+  | .output e => writeW bk w (toStr (eval P c w e))
+  | .assign name e => assignW L P c w name (eval P c w e)
   | .capture name body =>
-      bindR (renderBlock L P c (subKind L bk w.buf) { w with buf := ⟨0, []⟩ } body (blankList body))
+      bindR (mapErr (fun w1 => { w1 with buf := w.buf })
+              (renderBlock L P c (subKind L bk w.buf) { w with buf := ⟨0, []⟩ } body (blankList body)))
         fun w1 => assignW L P c { w1 with buf := w.buf } name (.sc (.str w1.buf.text))
   | .ifchanged body =>
-      bindR (renderBlock L P c (subKind L bk w.buf) { w with buf := ⟨0, []⟩ } body (blankList body))
+      bindR (mapErr (fun w1 => { w1 with buf := w.buf })
+              (renderBlock L P c (subKind L bk w.buf) { w with buf := ⟨0, []⟩ } body (blankList body)))
         fun w1 =>
           if w1.buf.text ≠ w1.ifch then writeW bk { w1 with buf := w.buf, ifch := w1.buf.text } w1.buf.text
           else .ok { w1 with buf := w.buf }
-  | .cycle group args => cycleW c bk w group args
+  | .cycle group args => cycleW P c bk w group args
   | .ifn cond body els =>
-      if truthy (eval c w cond) then renderBlock L P c bk w body (blankList body && blankList els)
+      if truthy (eval P c w cond) then renderBlock L P c bk w body (blankList body && blankList els)
       else renderBlock L P c bk w els (blankList body && blankList els)
+  | .unless cond body els =>
+      if truthy (eval P c w cond) then renderBlock L P c bk w els (blankList body && blankList els)
+      else renderBlock L P c bk w body (blankList body && blankList els)
+  | .withn args body =>
+      if _h : c.scope > L.depth then .error (.contextDepth, w) else
+      renderBlock L P { c with pushed := evalArgs P c w args :: c.pushed, scope := c.scope + 1 } bk w body (blankList body)
   | .forn var src body dflt =>
-      if (toIter (eval c w src)).length ≠ 0 then
-        -- context.loop: raise_for_loop_limit; loops.append; extend
-        guardE (loopOver L.loop c (toIter (eval c w src)).length) .loopLimit
-          (if _h : c.scope > L.depth then .error .contextDepth else
-            iter L P { c with loops := c.loops ++ [(toIter (eval c w src)).length], scope := c.scope + 1 } bk w var body
-              (toIter (eval c w src)))
+      if (toIter (eval P c w src)).length ≠ 0 then
+        -- context.loop: raise_for_loop_limit; loops.append; extend (whose failure leaves the appended length behind)
+        guardE (loopOver L.loop c w (toIter (eval P c w src)).length) .loopLimit w
+          (if _h : c.scope > L.depth then
+             .error (.contextDepth, { w with leak := w.leak ++ [(toIter (eval P c w src)).length] }) else
+            iter L P { c with loops := c.loops ++ [(toIter (eval P c w src)).length], scope := c.scope + 1 } bk w var body
+              none (toIter (eval P c w src)))
       else renderBlock L P c bk w dflt (blankList dflt)
+  | .tablerow var src body =>
+      -- raise_for_loop_limit; write the row tag; extend; loop_carry; cells; closing tag
+      guardE (loopOver L.loop c w (toIter (eval P c w src)).length) .loopLimit w
+        (bindR (writeW bk w trOpen) fun w0 =>
+          if _h : c.scope > L.depth then .error (.contextDepth, w0) else
+          bindR (iter L P { c with carry := c.carry * (toIter (eval P c w src)).length, scope := c.scope + 1 } bk w0 var body
+                  (some 1) (toIter (eval P c w src)))
+            fun w1 => writeW bk w1 trClose)
   | .include name bind args =>
-      guardE c.noInclude .disabledTag
+      guardE c.noInclude .disabledTag w
         (match lookupA P.templates name with
-        | none => .error .notFound
+        | none => .error (.notFound, w)
         | some body =>
-          guardE (decide (nestList body > L.nesting)) .blockNesting
-            (if _h : c.scope > L.depth then .error .contextDepth else
-              match boundInclude { c with pushed := evalArgs c w args :: c.pushed, scope := c.scope + 1 } w bind with
-              | .none => renderPartial L P { c with pushed := evalArgs c w args :: c.pushed, scope := c.scope + 1 } bk w body
+          guardE (decide (nestList body > L.nesting)) .blockNesting w
+            (if _h : c.scope > L.depth then .error (.contextDepth, w) else
+              match boundInclude P { c with pushed := evalArgs P c w args :: c.pushed, scope := c.scope + 1 } w bind with
+              | .none => renderPartial L P { c with pushed := evalArgs P c w args :: c.pushed, scope := c.scope + 1 } bk w body
               | .one key v =>
-                  renderPartial L P (bindVar false { c with pushed := evalArgs c w args :: c.pushed, scope := c.scope + 1 } key v)
+                  renderPartial L P (bindVar false { c with pushed := evalArgs P c w args :: c.pushed, scope := c.scope + 1 } key v)
                     bk w body
               | .many key items =>
-                  guardE (loopOver L.loop { c with pushed := evalArgs c w args :: c.pushed, scope := c.scope + 1 } items.length)
-                    .loopLimit
-                    (iterPartial L P { c with pushed := evalArgs c w args :: c.pushed, scope := c.scope + 1,
+                  guardE (loopOver L.loop { c with pushed := evalArgs P c w args :: c.pushed, scope := c.scope + 1 } w items.length)
+                    .loopLimit w
+                    (iterPartial L P { c with pushed := evalArgs P c w args :: c.pushed, scope := c.scope + 1,
                                               carry := c.carry * items.length } bk w false key body items)))
   | .render name bind args =>
       match lookupA P.templates name with
-      | none => .error .notFound
+      | none => .error (.notFound, w)
       | some body =>
-        guardE (decide (nestList body > L.nesting)) .blockNesting
-          (if _h : c.copyDepth > L.depth then .error .contextDepth else
-            match boundRender c w bind with
-            | .none => restoreW w (renderPartial L P (copied P c w (evalArgs c w args)) bk (freshW w) body)
+        guardE (decide (nestList body > L.nesting)) .blockNesting w
+          (if _h : c.copyDepth > L.depth then .error (.contextDepth, w) else
+            match boundRender P c w bind with
+            | .none => restoreW w (renderPartial L P (copied P c w (evalArgs P c w args)) bk (freshW w) body)
             | .one key v =>
-                restoreW w (renderPartial L P (bindVar true (copied P c w (evalArgs c w args)) key v) bk (freshW w) body)
+                restoreW w (renderPartial L P (bindVar true (copied P c w (evalArgs P c w args)) key v) bk (freshW w) body)
             | .many key items =>
-                guardE (loopOver L.loop (copied P c w (evalArgs c w args)) items.length) .loopLimit
-                  (restoreW w (iterPartial L P { copied P c w (evalArgs c w args) with
-                      carry := (copied P c w (evalArgs c w args)).carry * items.length } bk (freshW w) true key body items)))
+                guardE (loopOver L.loop (copied P c w (evalArgs P c w args)) (freshW w) items.length) .loopLimit w
+                  (restoreW w (iterPartial L P { copied P c w (evalArgs P c w args) with
+                      carry := (copied P c w (evalArgs P c w args)).carry * items.length } bk (freshW w) true key body items)))
 termination_by n => (L.depth + 2 - c.copyDepth, L.depth + 2 - c.scope, sizeOf n, 0)
 decreasing_by all_goals (simp_wf; simp only [Prod.lex_def, copied, bindVar_scope, bindVar_copyDepth, true_and]; omega)
 
@@ -501,26 +576,38 @@ def renderBlock (L : Limits) (P : Prog) (c : Cx) (bk : BK) (w : W) (nodes : List
 termination_by (L.depth + 2 - c.copyDepth, L.depth + 2 - c.scope, sizeOf nodes, 1)
 decreasing_by all_goals (simp_wf; simp only [Prod.lex_def, true_and]; omega)
 
-/-- `for node in nodes: node.render(context, buffer)` -/
+/-- `for node in nodes: node.render(context, buffer)` inside a block: nothing is caught here -/
 def renderList (L : Limits) (P : Prog) (c : Cx) (bk : BK) (w : W) : List Node → Res
   | [] => .ok w
   | n :: ns => bindR (render L P c bk w n) fun w1 => renderList L P c bk w1 ns
 termination_by ns => (L.depth + 2 - c.copyDepth, L.depth + 2 - c.scope, sizeOf ns, 0)
 decreasing_by all_goals (simp_wf; simp only [Prod.lex_def, true_and]; omega)
 
-/-- the iterations of a `for` body: `namespace[name] = itm; block.render(context, buffer)` -/
-def iter (L : Limits) (P : Prog) (c : Cx) (bk : BK) (w : W) (var : String) (body : List Node) : List Scalar → Res
+/-- the node loop of `render_with_context` (a template's or a partial's own nodes): each node's `LiquidError` goes to
+`Environment.error`, which raises in STRICT mode and drops it in LAX/WARN mode -/
+def renderTop (L : Limits) (P : Prog) (c : Cx) (bk : BK) (w : W) : List Node → Res
+  | [] => .ok w
+  | n :: ns => bindR (catchR P.lax (render L P c bk w n)) fun w1 => renderTop L P c bk w1 ns
+termination_by ns => (L.depth + 2 - c.copyDepth, L.depth + 2 - c.scope, sizeOf ns, 0)
+decreasing_by all_goals (simp_wf; simp only [Prod.lex_def, true_and]; omega)
+
+/-- the iterations of a `for` body (`col = none`) or the cells of a `tablerow` (`col = some k`, the 1-based column):
+`namespace[name] = itm`; [cell tag]; `block.render(context, buffer)`; [closing cell tag] -/
+def iter (L : Limits) (P : Prog) (c : Cx) (bk : BK) (w : W) (var : String) (body : List Node) (col : Option Nat) :
+    List Scalar → Res
   | [] => .ok w
   | itm :: rest =>
-      bindR (renderBlock L P { c with pushed := [(var, .sc itm)] :: c.pushed } bk w body (blankList body))
-        fun w1 => iter L P c bk w1 var body rest
+      bindR (cellOpen bk w col) fun w0 =>
+      bindR (renderBlock L P { c with pushed := [(var, .sc itm)] :: c.pushed } bk w0 body (blankList body)) fun w1 =>
+      bindR (cellClose bk w1 col) fun w2 =>
+      iter L P c bk w2 var body (col.map (· + 1)) rest
 termination_by items => (L.depth + 2 - c.copyDepth, L.depth + 2 - c.scope, sizeOf body, items.length + 2)
 decreasing_by all_goals (simp_wf; simp only [Prod.lex_def, true_and]; omega)
 
 /-- `template.render_with_context(context, buffer, partial=True)`: `extend`, then the template's nodes -/
 def renderPartial (L : Limits) (P : Prog) (c : Cx) (bk : BK) (w : W) (body : List Node) : Res :=
-  if _h : c.scope > L.depth then .error .contextDepth else
-  renderList L P { c with pushed := [] :: c.pushed, scope := c.scope + 1 } bk w body
+  if _h : c.scope > L.depth then .error (.contextDepth, w) else
+  renderTop L P { c with pushed := [] :: c.pushed, scope := c.scope + 1 } bk w body
 termination_by (L.depth + 2 - c.copyDepth, L.depth + 2 - c.scope, sizeOf body + 1, 0)
 decreasing_by all_goals (simp_wf; simp only [Prod.lex_def, true_and]; omega)
 
@@ -535,19 +622,22 @@ termination_by items => (L.depth + 2 - c.copyDepth, L.depth + 2 - c.scope, sizeO
 decreasing_by all_goals (simp_wf; simp only [Prod.lex_def, bindVar_scope, bindVar_copyDepth, true_and]; omega)
 end
 
-/-- `Environment.from_string(source)` (parse: block nesting) followed by `BoundTemplate.render(**globals)` -/
+/-- the state a render starts from -/
+def initW : W := { locals := [], cycles := [], ifch := [], buf := ⟨0, []⟩, log := [], leak := [] }
+
+/-- `Environment.from_string(source)` (parse: block nesting) followed by `BoundTemplate.render(**globals)`.
+The `extend` of the top-level `render_with_context` is outside the node loop: its error is raised in every mode. -/
 def renderTemplate (L : Limits) (P : Prog) (nodes : List Node) : Res :=
-  guardE (decide (nestList nodes > L.nesting)) .blockNesting <|
+  guardE (decide (nestList nodes > L.nesting)) .blockNesting initW <|
   let c : Cx := { pushed := [], globals := P.globals, loops := [], carry := 1, copyDepth := 0, scope := 4,
                   noInclude := false, nsCarry := 0 }
-  let w : W := { locals := [], cycles := [], ifch := [], buf := ⟨0, []⟩, log := [] }
-  if c.scope > L.depth then .error .contextDepth else
-  renderList L P { c with pushed := [] :: c.pushed, scope := c.scope + 1 } (.real L.output) w nodes
+  if c.scope > L.depth then .error (.contextDepth, initW) else
+  renderTop L P { c with pushed := [] :: c.pushed, scope := c.scope + 1 } (.real L.output) initW nodes
 
 /-- the observable outcome: the returned string, or the error class -/
 def outcome (r : Res) : Except Err Text :=
   match r with
-  | .error e => .error e
+  | .error (e, _) => .error e
   | .ok w => .ok w.buf.text
 
 /-! ## `sys.getsizeof` of CPython 3.12 (64-bit) for the value classes the correspondence uses
@@ -574,5 +664,43 @@ def pySizeof : Val → Nat
   | .sc (.int n) => 24 + 4 * intDigits n
   | .sc (.str s) => strSize s
   | .list xs => 56 + 8 * (xs.length + xs.length % 2)   -- `list(tuple)`: exact preallocation, rounded up to an even count
+
+/-! ## The filters the correspondence uses (`append`, `prepend`, `size`), as functions on values
+
+`string_filter` turns the left value into a string (`None` → "", other non-strings through `str`), `append` /
+`prepend` turn the argument into one with `str`. The theorems hold for every `filt`. -/
+
+/-- `repr` of a list item (the generators keep quotes, backslashes and control characters out of array items) -/
+def pyReprScalar : Scalar → Text
+  | .nil => [78, 111, 110, 101]
+  | .undef _ => []
+  | .int n => digits n
+  | .str s => [39] ++ s ++ [39]
+
+def pyReprList (xs : List Scalar) : Text :=
+  [91] ++ (match xs with
+    | [] => []
+    | x :: r => pyReprScalar x ++ r.flatMap (fun y => [44, 32] ++ pyReprScalar y)) ++ [93]
+
+/-- `str(v)` -/
+def pyStrVal : Val → Text
+  | .sc s => pyStr s
+  | .list xs => pyReprList xs
+
+/-- the left operand after `string_filter` -/
+def leftStr : Val → Text
+  | .sc .nil => []
+  | v => pyStrVal v
+
+def pyFilt (name : String) (v : Val) (arg : Option Val) : Val :=
+  match name, arg with
+  | "append", some a => .sc (.str (leftStr v ++ pyStrVal a))
+  | "prepend", some a => .sc (.str (pyStrVal a ++ leftStr v))
+  | "size", none =>
+    (match v with
+     | .sc (.str s) => .sc (.int s.length)
+     | .list xs => .sc (.int xs.length)
+     | _ => .sc (.int 0))
+  | _, _ => v
 
 end LiquidVerif.Limits
